@@ -6,6 +6,7 @@ import os
 import re
 import shutil
 import subprocess
+import sys
 import time
 from concurrent.futures import ThreadPoolExecutor
 
@@ -55,13 +56,16 @@ def build_driver(dst):
 # ---------------------------------------------------------------------------
 # scripts from TLC behaviours
 
-def convert_script(obj, sid, src):
+GATED_TICK_MS = 10000
+
+
+def convert_script(obj, sid, src, tick_ms=TICK_MS, gated=False):
     """TLC-printed script (model units) -> driver script (ms)."""
     np_ = obj["np"]
     vers = obj["vers"]
     for v in vers:
-        v["delay"] = v["delay"] * TICK_MS
-        v["retPeriod"] = v["retPeriod"] * TICK_MS
+        v["delay"] = v["delay"] * tick_ms
+        v["retPeriod"] = v["retPeriod"] * tick_ms
     init = [0] * np_
     steps = []
     for s in obj["steps"]:
@@ -69,7 +73,7 @@ def convert_script(obj, sid, src):
         if op == "init":
             init[s["p"] - 1] = s["v"]
         elif op == "tick":
-            steps.append({"op": "adv", "ms": TICK_MS})
+            steps.append({"op": "adv", "ms": tick_ms})
         elif op == "schedule":
             d = {"op": "schedule", "p": s["p"]}
             if s.get("bad", "none") != "none":
@@ -85,8 +89,14 @@ def convert_script(obj, sid, src):
             steps.append({"op": "reload", "p": s["p"], "v": s["v"]})
         else:
             steps.append({"op": op})
+        if s.get("lab") and op != "init":
+            steps[-1]["lab"] = s["lab"]     # the model transition this step was derived from (lib/conform.py)
     steps.append({"op": "drain"})
-    return {"id": sid, "src": src, "np": np_, "vers": vers, "init": init, "steps": steps, "seed": 0}
+    r = {"id": sid, "src": src, "np": np_, "vers": vers, "init": init, "steps": steps, "seed": 0, "gated": gated}
+    if "root" in obj:
+        r["root"] = obj["root"]
+        r["graph"] = obj["graph"]
+    return r
 
 
 def via_mix(scripts, sd):
@@ -123,14 +133,18 @@ def edge_scripts(work, module, cfg, tag, workers=4, timeout=900):
     vers, edges = planner.parse_edges(out)
     if not vers or not edges:
         raise Infra("TLC edge dump produced nothing (%s):\n%s" % (cfg, out[-2000:]))
-    plans, stats = planner.plan(vers, edges)
+    plans, stats = planner.plan(vers, edges, expectations=True)
     scripts = []
     for i, pl in enumerate(plans):
         init = [{"op": "init", "p": p + 1, "v": v} for p, v in enumerate(pl["cfg"])]
-        obj = {"np": len(pl["cfg"]), "vers": json.loads(json.dumps(vers)), "steps": init + pl["steps"]}
-        scripts.append(convert_script(obj, "%s-%05d" % (tag, i + 1), "edge cover of %s" % cfg))
+        obj = {"np": len(pl["cfg"]), "vers": json.loads(json.dumps(vers)), "steps": init + pl["steps"], "root": pl["root"], "graph": tag}
+        # edge-cover scripts run gated (one scheduler iteration per poll step, long ticks); every step names its model transition
+        scripts.append(convert_script(obj, "%s-%05d" % (tag, i + 1), "edge cover of %s" % cfg, tick_ms=GATED_TICK_MS, gated=True))
     stats["config"] = cfg
     stats["scripts"] = len(scripts)
+    import pickle
+    with open(os.path.join(work, "graph-%s.pickle" % tag), "wb") as f:
+        pickle.dump(stats.pop("graph"), f)
     return scripts, stats
 
 
@@ -398,6 +412,13 @@ def engine(tier):
             via_mix(scripts, seed())
             t1 = time.time()
             traces, crashes = execute(driver, scripts, d)
+            # strict conformance of the gated edge-cover scripts with the model they were derived from (diagnostic, lib/conform.py)
+            import conform
+            conf = conform.validate(work, scripts, traces)
+            for dr in conf["drift"][:20]:
+                sys.stderr.write("CONFORM-DRIFT %s\n" % json.dumps(dr))
+            conf["drift_count"] = len(conf["drift"])
+            conf["drift"] = conf["drift"][:20]
             t2 = time.time()
             # one monitor pass with every formula: on a tree where everything holds the per-property checks need no further TLC run
             allnames = sorted({n for v in INVS.values() for n in v})
@@ -411,7 +432,7 @@ def engine(tier):
                 f.write(json.dumps(sc) + "\n")
         steps = sum(len(s["steps"]) for s in scripts)
         res = {"tier": tier, "seed": seed(), "scripts": len(scripts), "steps": steps, "traces": traces, "crashes": crashes,
-               "mc": mc, "edge_cover": edge_stats, "all_clean": not first, "first_pass_failing": failing,
+               "mc": mc, "edge_cover": edge_stats, "conformance": conf, "all_clean": not first, "first_pass_failing": failing,
                "trace_lines": nlines, "t_monitor": round(t2b - t2, 1), "t_gen": round(t1 - t0, 1), "t_exec": round(t2 - t1, 1), "t_mc": round(time.time() - t2b, 1)}
         with open(os.path.join(d, "result.json"), "w") as f:
             json.dump(res, f, indent=1)
